@@ -224,6 +224,27 @@ def r10_4(ctx):
                "stores `%s` at board.zobrist_key; must be the count read for the same key %+d" % (desc, delta))
 
 
+def r10_7(ctx):
+    """DrawTable primitives: clear() empties the map; new() starts empty; Clone is the derived copy."""
+    f = ctx.facts
+    b = f.body(CLEAR)
+    ctx.note_fn(CLEAR, "draw_table::DrawTable::new")
+    ex = Exprs(b)
+    ok = False
+    for bb, t in b.iter_calls():
+        c = callee_of(t) or ""
+        if c.endswith("HashMap::<K, V, S, A>::clear"):
+            a = strip_refs(ex.call_args(bb)[0])
+            ok = a[0] == "field" and a[2] == "table"
+    rets = b.return_blocks()
+    clr = {bb for bb, t in b.iter_calls() if (callee_of(t) or "").endswith("HashMap::<K, V, S, A>::clear")}
+    ok = ok and bool(rets) and all(not b.reaches(0, r, removed_nodes=clr) or 0 in clr for r in rets)
+    ctx.ob("DrawTable::clear", ok, b.file, "clear() empties self.table on every path")
+    nb = f.body("draw_table::DrawTable::new")
+    ok = any((callee_of(t) or "").endswith("HashMap::<K, V>::new") or (callee_of(t) or "").endswith("::new") for _, t in nb.iter_calls())
+    ctx.ob("DrawTable::new", ok, nb.file, "new() starts from an empty map")
+
+
 def r10_6(ctx):
     """Every search node consults the repetition record before it is evaluated in any way: no path
     from entry to a return avoids the test, except the clock abort."""
